@@ -71,39 +71,81 @@ def rule_a9_setof(ctx):
         if m in seen:
             continue
         seen.add(m)
-        src = [norm(s) for s in stmts_of(m.node)]
-        pads = [n for n in walk_own(m.node) if isinstance(n, ast.Call) and call_name(n) == 'ljust' and len(n.args) == 2]
-        ok = bool(pads)
-        det = []
-        if not pads:
-            det.append('no zero-padding call')
-        for p in pads:
-            width, fill = p.args
-            wdefs = [s for s in stmts_of(m.node) if isinstance(s, ast.Assign) and norm(s.targets[0]) == norm(width)]
-            fdefs = [s for s in stmts_of(m.node) if isinstance(s, ast.Assign) and norm(s.targets[0]) == norm(fill)]
-            if not (wdefs and all(norm(d.value) in ('max(map(len, chunks))', 'max((len(x) for x in chunks))', 'max([len(x) for x in chunks])') for d in wdefs)):
-                ok = False
-                det.append('pad width is not the maximal member length')
-            if not (fdefs and all(norm(d.value) in ("str2octs('\\x00')", "b'\\x00'", 'int2oct(0)') for d in fdefs)):
-                ok = False
-                det.append('fill octet is not 00')
-        sorts = [n for n in walk_own(m.node) if isinstance(n, ast.Call) and (call_name(n) == 'sort' or call_name(n) == 'sorted')]
-        if not sorts:
-            ok = False
-            det.append('no sort')
-        for sc in sorts:
-            ks = [k for k in sc.keywords if k.arg == 'key']
-            if ks and norm(ks[0].value) not in ('lambda x: x[0]',):
-                ok = False
-                det.append('sort key %s is not the padded member' % norm(ks[0].value))
-            if any(k.arg == 'reverse' for k in sc.keywords):
-                ok = False
-                det.append('reverse sort')
-        final = [s for s in src if s.startswith('chunks = [x[1] for x in')]
-        if not final:
-            ok = False
-            det.append('unpadded members are not restored after sorting')
-        ctx.ob('A9.setof', m, 'members sorted by zero-padded encoding, emitted unpadded', ok, '; '.join(det) or 'ok')
+        _setof_body(ctx, m)
+
+
+def _setof_body(ctx, m):
+    """Decide A9.setof for one SET OF encoder method.  Violations are reported only on positive evidence (no sort, a sort key
+    that is not the zero-padded member, a container that drops duplicates, reverse order); a shape that is not understood
+    is an analysis error."""
+    import re
+    body = list(walk_own(m.node))
+    sorts = [n for n in body if isinstance(n, ast.Call) and call_name(n) in ('sort', 'sorted')]
+    dedup = [n for n in body if isinstance(n, ast.Call) and isinstance(n.func, ast.Name) and n.func.id in ('dict', 'set', 'frozenset')]
+    det = []
+    unknown = []
+    if not sorts:
+        det.append('the member encodings are not sorted at all')
+    if dedup:
+        det.append('`%s` collapses members with equal encodings: a SET OF is a bag' % norm(dedup[0])[:40])
+    localdefs = dict((d.name, d) for d in ast.walk(m.node) if isinstance(d, ast.FunctionDef) and d is not m.node)
+    assigns = dict((norm(a.targets[0]), a.value) for a in body if isinstance(a, ast.Assign) and len(a.targets) == 1)
+    pads = []
+    for sc in sorts:
+        if any(k.arg == 'reverse' and not (isinstance(k.value, ast.Constant) and not k.value.value) for k in sc.keywords):
+            det.append('reverse sort')
+        ks = [k.value for k in sc.keywords if k.arg == 'key']
+        keyexpr, par = None, None
+        if ks:
+            k = ks[0]
+            if isinstance(k, ast.Lambda) and len(k.args.args) == 1:
+                keyexpr, par = k.body, k.args.args[0].arg
+            elif isinstance(k, ast.Name) and k.id in localdefs and len(localdefs[k.id].args.args) == 1 and \
+                    len(localdefs[k.id].body) >= 1 and isinstance(localdefs[k.id].body[-1], ast.Return):
+                keyexpr, par = localdefs[k.id].body[-1].value, localdefs[k.id].args.args[0].arg
+            else:
+                unknown.append('sort key `%s` of %s not understood' % (norm(k), m.short))
+                continue
+        # what is being sorted
+        subject = sc.args[0] if call_name(sc) == 'sorted' and sc.args else (sc.func.value if call_name(sc) == 'sort' else None)
+        if keyexpr is not None and isinstance(keyexpr, ast.Call) and call_name(keyexpr) == 'ljust' and norm(keyexpr.func.value) == par:
+            pads.append(keyexpr)            # sorted(members, key=lambda c: c.ljust(W, Z))
+            continue
+        if keyexpr is None or (isinstance(keyexpr, ast.Subscript) and norm(keyexpr.value) == par and const_int(keyexpr.slice) == 0):
+            # decorate-sort-undecorate: the sorted list holds (padded, member) pairs
+            sdef = assigns.get(norm(subject)) if subject is not None else None
+            pairs = sdef if isinstance(sdef, ast.ListComp) else (subject if isinstance(subject, ast.ListComp) else None)
+            if pairs is not None and isinstance(pairs.elt, ast.Tuple) and len(pairs.elt.elts) == 2 and \
+                    isinstance(pairs.elt.elts[0], ast.Call) and call_name(pairs.elt.elts[0]) == 'ljust':
+                pads.append(pairs.elt.elts[0])
+                undec = [n for n in body if isinstance(n, ast.ListComp) and isinstance(n.elt, ast.Subscript) and const_int(n.elt.slice) == 1]
+                if not undec:
+                    det.append('the padded copies, not the members, are emitted (no `[x[1] for x in ...]` after the sort)')
+                continue
+            if keyexpr is None and sdef is None and subject is not None:
+                det.append('members are sorted by their plain encoding `%s`, not as zero-padded octet strings of equal length '
+                           '(X.690 11.6)' % norm(subject))
+                continue
+            unknown.append('sorted object `%s` of %s not understood' % (norm(subject), m.short))
+            continue
+        det.append('sort key `%s` is not the zero-padded member' % norm(keyexpr))
+    for p_ in pads:
+        if len(p_.args) != 2:
+            unknown.append('padding call `%s` not understood' % norm(p_))
+            continue
+        width, fill = p_.args
+        w = assigns.get(norm(width), width)
+        f_ = assigns.get(norm(fill), fill)
+        wt = norm(w)
+        if not re.fullmatch(r'max\((map\(len, (\w+)\)|\(?\[?len\((\w+)\) for \3 in (\w+)\]?\)?)\)', wt):
+            det.append('pad width `%s` is not the maximal member length' % wt)
+        if norm(f_) not in ("str2octs('\\x00')", "b'\\x00'", 'int2oct(0)', "ints2octs((0,))"):
+            det.append('fill octet `%s` is not 00' % norm(f_))
+    if sorts and not pads and not det and not unknown:
+        unknown.append('no zero-padding found for the sort of %s' % m.short)
+    if unknown and not det:
+        raise AnalysisError('; '.join(unknown))
+    ctx.ob('A9.setof', m, 'members sorted by zero-padded encoding, emitted unpadded', not det, '; '.join(det) or 'ok')
 
 
 # ===================================================================== A11
